@@ -278,7 +278,37 @@ func exploreAfterF(call ssa.CallInstruction, v ssa.Value, nonNil bool, isCB func
 		}
 	}
 	exploreRetAliases = map[*ssa.Return]map[ssa.Value]bool{}
-	work := []item{{call.Block(), idx + 1, nil}}
+	// the result stored into a variable (a local, or one captured from the enclosing function) right
+	// where it is produced: a load of that variable later in the same block is the result itself
+	var al0 map[ssa.Value]bool
+	if refs := v.Referrers(); refs != nil {
+		for _, r := range *refs {
+			st, ok := r.(*ssa.Store)
+			if !ok || st.Val != v || st.Block() != call.Block() {
+				continue
+			}
+			seenStore := false
+			for _, in := range call.Block().Instrs {
+				if in == ssa.Instruction(st) {
+					seenStore = true
+					continue
+				}
+				if !seenStore {
+					continue
+				}
+				if other, ok := in.(*ssa.Store); ok && other.Addr == st.Addr {
+					break // overwritten
+				}
+				if ld, ok := in.(*ssa.UnOp); ok && ld.Op == token.MUL && ld.X == st.Addr {
+					if al0 == nil {
+						al0 = map[ssa.Value]bool{}
+					}
+					al0[ld] = true
+				}
+			}
+		}
+	}
+	work := []item{{call.Block(), idx + 1, al0}}
 	for len(work) > 0 {
 		it := work[len(work)-1]
 		work = work[:len(work)-1]
